@@ -21,7 +21,7 @@ TICK == 1000000
 
 IsUngetByte(b) == b \in 1..26
 St0 == [wireIn |-> <<>>, wireOut |-> <<>>, keysIn |-> <<>>, keysOut |-> 0, ungetIn |-> <<>>, ungetOut |-> <<>>,
-        trig |-> <<>>, ts |-> <<>>, sched |-> <<>>, sigs |-> 0, tswrites |-> 0,
+        trig |-> <<>>, ts |-> <<>>, sched |-> <<>>, sigs |-> 0, tswrites |-> 0, tsdone |-> {},
         gone |-> {}, schedOut |-> <<>>,
         open |-> FALSE, T |-> -1, t0 |-> 0, deliverable |-> FALSE, schedAtStart |-> FALSE, bigRead |-> FALSE,
         wireAtStart |-> 0, ticksInReq |-> 0, bigN |-> 0]
@@ -34,6 +34,10 @@ PendingSched(s) == SelectSeq(s.sched, LAMBDA x : x[2] \notin s.gone)
 WireBacklog(s) == Len(s.wireIn) - Len(s.wireOut)
 UngetBacklog(s) == Len(s.ungetIn) - Len(s.ungetOut)
 DueSched(s, t) == \E k \in 1..Len(PendingSched(s)) : PendingSched(s)[k][1] < t
+
+\* thread-safe events whose callback has completely run (its queue append and its own pipe write both done)
+\* and that have not been returned yet
+CompletedTs(s) == SelectSeq(s.ts, LAMBDA x : x \in s.tsdone /\ x \notin s.gone)
 
 Deliverable(s, t) ==
   \/ Pending(s.trig, s.gone) # <<>> \/ Pending(s.ts, s.gone) # <<>> \/ s.sigs > 0
@@ -87,6 +91,7 @@ RetVerdict(s, e, pt) ==
                    ELSE IF \E k \in 1..Len(PendingSched(s)) : PendingSched(s)[k][1] < w THEN "ScheduledInTimeOrder"
                    ELSE "ok")
      ELSE IF e.kind = "sigint" THEN (IF s.sigs > 0 THEN "ok" ELSE "SigIntOutOfNowhere")
+     ELSE IF (e.kind = "none" \/ e.kind = "blocked") /\ CompletedTs(s) # <<>> THEN "ThreadsafeEventStranded"
      ELSE IF e.kind = "none" THEN
           (IF ~s.schedAtStart /\ s.T >= 0 /\ e.t1 < s.t0 + s.T THEN "NoneNotBeforeTimeout"
            ELSE IF Pending(s.trig, s.gone) # <<>> \/ UngetBacklog(s) > 0 \/ s.wireAtStart > Len(s.wireOut) THEN "TimesOutWhileDeliverable"
@@ -114,7 +119,8 @@ Next ==
           [] e.k = "unget" -> st' = [st EXCEPT !.ungetIn = st.ungetIn \o e.bytes] /\ v' = v
           [] e.k = "trig" -> st' = [st EXCEPT !.trig = Append(st.trig, e.id)] /\ v' = v
           [] e.k = "tsappend" -> st' = [st EXCEPT !.ts = Append(st.ts, e.id)] /\ v' = v
-          [] e.k = "tswrite" -> st' = [st EXCEPT !.tswrites = st.tswrites + 1] /\ v' = v
+          [] e.k = "tswrite" -> st' = [st EXCEPT !.tswrites = st.tswrites + 1,
+                                                 !.tsdone = IF e.id # 0 THEN st.tsdone \cup {e.id} ELSE st.tsdone] /\ v' = v
           [] e.k = "sched" -> st' = [st EXCEPT !.sched = Append(st.sched, <<e.when, e.id>>)] /\ v' = v
           [] e.k = "sigint" -> st' = [st EXCEPT !.sigs = st.sigs + 1] /\ v' = v
           [] e.k = "tick" -> st' = [st EXCEPT !.ticksInReq = IF st.open THEN st.ticksInReq + 1 ELSE 0] /\ v' = v
